@@ -4,7 +4,7 @@ import json, os
 V = os.path.dirname(os.path.dirname(os.path.abspath(__file__)))
 TB = ('Trusted: Coq 8.16.1 kernel + vm_compute (no native_compute); stdlib/Coquelicot/Interval axioms as printed by Print Assumptions '
       '(sig_forall_dec, sig_not_dec, functional_extensionality_dep, classic); py2coq translator and numpy denotation (validated by the '
-      'interval-certified correspondence); Python harness; IEEE rounding not modelled in real-number theorems. ')
+      'interval-certified correspondence); the source-normalisation layer tools/vf/srcnorm.py (a function alpha-equivalent to the committed reference snapshot is read in its reference spelling; selftest over all seeded changes); Python harness; IEEE rounding not modelled in real-number theorems. ')
 CHECKS = {
  'C06': dict(
    text='Machine-checked proof (Coq) about the model generated from the current source: boundary conditions, symmetry, 2-increasing, '
@@ -140,7 +140,7 @@ CHECKS.update({
 CHECKS.update({
  'C19': dict(
    text='Machine-checked proof (Coq) about executable life-cycle state machines (ScipyModel families incl. TruncatedGaussian and GaussianKDE, the selecting wrapper, Bivariate, GaussianMultivariate): fit purity over arbitrary fit histories '
-        '(full for every family except GaussianKDE whose cached sample size refutes it, with witness), unfitted queries raise NotFittedError, multivariate validation leaves the state unchanged, get_instance returns a fresh configured object, '
+        '(full for every family except GaussianKDE whose cached sample size refutes it, with witness), every query and sample of an unfitted model raises NotFittedError and touches no generator (full for the bivariate classes since the F23 fix; vines since F30), multivariate validation leaves the state unchanged, get_instance returns a fresh configured object, '
         'definition-before-use of np.empty cells in vines (refuted with witness); AST-generated facts (store_args classes, validated fits, check_fit-first methods, guard shapes, fit writes) decided by vm_compute. '
         'Tie: random and scripted fit/query histories on the real classes vs vm_compute of the machine over captured oracle tables; refit-vs-fresh and misuse oracles on every class incl. vines.',
    note=TB + 'Model.Lifecycle is hand-written (correspondence); scipy fits/optimisers are oracle tables captured per run; datasets are abstracted to (identity, constant?, range, size).',
@@ -175,7 +175,7 @@ CHECKS.update({
 CHECKS.update({
  'C14': dict(
    text='Machine-checked proof (Coq) about executable serialisation models over a JSON-like value type: to_dict o from_dict o to_dict = to_dict and behaviour preservation for every fitted state of each univariate family (constant and non-constant), the wrapper (reconstructs as the selected family), '
-        'bivariate copulas and GaussianMultivariate, idempotence under n round trips (induction), type dispatch of the generic entry points (incl. subclass entry points), JSON-safety of univariate/bivariate/Gaussian dicts and non-safety of vine dicts (Python set under D), '
+        'bivariate copulas and GaussianMultivariate, idempotence under n round trips (induction), type dispatch of the generic entry points (incl. subclass entry points, and Multivariate.from_dict on vine dicts since the F38 fix), JSON-safety of univariate/bivariate/Gaussian dicts and non-safety of vine dicts (Python set under D), '
         'vine/tree/edge round trip with re-linking of previous_tree and parents; refutations with witnesses for the open defects (KDE options, StudentT constant, nested KDE dataset, std underflow, independence dispatch). AST-generated key sets (emitted/consumed keys per class) decided by vm_compute. '
         'Tie: real round trips (dict, JSON text, pickle/JSON files, repeated 1..3 times) checked inside Coq against the model on exact rationals; bitwise behaviour oracles on the real classes.',
    note=TB + 'pickle/json are oracles (deep copy incl. instance overrides / identity on JSON-able values); large vine payload arrays enter the model as injective tokens and are compared bitwise in the harness.',
